@@ -744,6 +744,14 @@ def handle_end_progs(state: TokenizerState) -> Iterator[TokenInfo]:
     if (state.in_multi_line_string()) or (state.in_continued_string()):
         state.end_progs[-1].join_line(state)
         state.pos = state.max
+    elif state.in_colon() and state.line.endswith("\n"):
+        # as in CPython 3.12, a line end terminates the format spec of a single-quoted f-string and the replacement
+        # field goes on (only white space may follow before its closing brace)
+        end = len(state.line) - (2 if state.line.endswith("\r\n") else 1)
+        if end > state.pos or state.end_progs[-1].has_text():
+            yield state.prog_token(end, Token.FSTRING_MIDDLE)
+        state.pop_mode()
+        state.pos = end
     elif state.in_fstring() or state.in_colon():
         # neither a brace nor the closing quote on the rest of a line that the literal cannot run past
         raise TokenError("unterminated f-string literal", (state.lnum, state.pos))
